@@ -170,7 +170,7 @@ func (c *Ctx) TimeUp() bool {
 	// (sixteen of them side by side must not exhaust the machine)
 	c.memTick++
 	if c.memTick%32 == 0 || c.memOver {
-		if !c.memOver && rssMB() > rssLimitMB() {
+		if lim := rssLimitMB(); !c.memOver && lim > 0 && rssMB() > lim {
 			c.memOver = true
 		}
 		if c.memOver {
@@ -504,5 +504,5 @@ func rssLimitMB() int {
 	if v, err := strconv.Atoi(os.Getenv("VERIF_RSS_LIMIT_MB")); err == nil && v > 0 {
 		return v
 	}
-	return 2500
+	return 0 // no budget unless the check's registry entry sets one
 }
